@@ -121,8 +121,16 @@ class Spec:
                     if app is not None:
                         s += bytes([0x43, len(app)]) + app
                     inner += bytes([0x60, len(s)]) + s
-                if v.get("subs_present_empty"):
-                    pass
+                if v.get("on_card") is not None:          # tag 0x62: the applications on the card, a container of 0x60 entries
+                    oc = b""
+                    for (ct, app) in v["on_card"]:
+                        e = b""
+                        if ct is not None:
+                            e += bytes([0x41, len(ct)]) + ct
+                        if app is not None:
+                            e += bytes([0x43, len(app)]) + app
+                        oc += bytes([0x60, len(e)]) + e
+                    inner += bytes([0x62, len(oc)]) + oc
                 body += bytes([0x06]) + layouts.len_prefix("LTlv", len(inner)) + inner
         return bytes([4, 0x0f]) + layouts.len_prefix("LAdpu", len(body)) + body
 
